@@ -1325,6 +1325,8 @@ IND_RUNS = {
               ['NoWriter']),
     'CqInd': ('IndInv', 'Next', [('NextNonModular', 'non-modular head/tail comparison (the code before fix e64d60c)')],
               ['NoRead']),
+    'PoolInd': ('IndInv', 'Next', [('NextClobber', 'filling ring entry 0 overwrites the tail (the code before fix ffe685c); TakeSafe fails', 'TakeSafe')],
+                ['NoRace']),
 }
 
 
@@ -1348,8 +1350,9 @@ def engine_ind(module, tag):
              'base case: Init => IndInv (W = 2^32, all queue sizes)'),
             ('step', ['--cinit=ConstInit', '--init=IndInit', '--next=' + nxt, '--inv=' + inv, '--length=1'], False,
              'inductive step: IndInv /\\ Next => IndInv\' (W = 2^32, all queue sizes)')]
-    for d, what in devs:
-        jobs.append(('dev_' + d, ['--cinit=ConstInit', '--init=IndInit', '--next=' + d, '--inv=' + inv, '--length=1'], True,
+    for dv in devs:
+        d, what = dv[0], dv[1]
+        jobs.append(('dev_' + d, ['--cinit=ConstInit', '--init=IndInit', '--next=' + d, '--inv=' + (dv[2] if len(dv) > 2 else inv), '--length=1'], True,
                      'sanity: the invariant is NOT inductive for the deviation: ' + what))
     for pr in probes:
         jobs.append(('probe_' + pr, ['--cinit=ConstInit', '--init=IndInit', '--next=' + nxt, '--inv=' + pr, '--length=0'], True,
@@ -1376,3 +1379,7 @@ def engine_sqind(tier, seed):
 
 def engine_cqind(tier, seed):
     return engine_ind('CqInd', 'C05')
+
+
+def engine_poolind(tier, seed):
+    return engine_ind('PoolInd', 'C08')
